@@ -475,7 +475,8 @@ def _borrowed(modname, fname):
 
 # "a batch consisting only of notifications gets no reply": over WebSocket the reply write is gated by the response kind
 # (C01.R3) - RpcService::batch signals "no reply" with MethodResponse::notification()
-BORROWED = [_borrowed("c01", "r3_ws_reply_once")]
+# a batch POSTed to a path the GET-proxy serves must still be executed entry by entry: the proxy rewrites GET only (C19.R6)
+BORROWED = [_borrowed("c01", "r3_ws_reply_once"), _borrowed("c19", "r6_proxy_rewrites_only_what_it_proxies")]
 
 
 RULES = [r1_gate_before_work, r2_classifier_agreement, r3_append_discipline, r4_nothing_outside_array, r5_append_writes_every_entry, r6_batch_container_is_inert, rcfg_config_verbatim] + BORROWED
